@@ -14,6 +14,9 @@ import json, os, shutil, subprocess, sys, tempfile, time
 mut, prop, name = sys.argv[1], sys.argv[2], sys.argv[3]
 run_all = "--all" in sys.argv
 W = f"/var/tmp/seed-{name}"
+# VERIF_COPY: run ./check from a private copy of /verif (with its own lean/.lake and Gen tables) so that several
+# seeded changes can be checked in parallel; the kept files always go to /verif/seeded/
+V = os.environ.get("VERIF_COPY", "/verif")
 
 
 def sh(cmd, **kw):
@@ -49,7 +52,7 @@ try:
     res["checks"] = {}
     for p in props:
         t0 = time.time()
-        c = sh(f"cd /verif && FV_REPO={W} VERIF_SEED=0 timeout 1500 ./check {p}")
+        c = sh(f"cd {V} && FV_REPO={W} VERIF_SEED=0 timeout 1500 ./check {p}")
         lines = [l for l in c.stdout.splitlines() if l.startswith(("VIOLATION", "OK ", "KNOWN-FINDING"))]
         viol = [l for l in lines if l.startswith("VIOLATION")]
         verdict = "not-detected"
@@ -59,14 +62,14 @@ try:
         if viol:
             try:
                 rp = viol[0].split("replay=")[1].split()[0]
-                why = str(json.load(open("/verif/" + rp)).get("why") or json.load(open("/verif/" + rp)).get("broken"))[:400]
+                why = str(json.load(open(V + "/" + rp)).get("why") or json.load(open(V + "/" + rp)).get("broken"))[:400]
             except Exception:
                 pass
         res["checks"][p] = dict(exit=c.returncode, verdict=verdict, why=why, wall_s=round(time.time() - t0, 1))
 finally:
     sh(f"git -C /repo worktree remove --force {W}; rm -rf {W}")
     # the check regenerates Gen/*.lean from the tree under test: restore them for /repo
-    sh("cd /verif && PYTHONPATH=/verif:/repo /venv/bin/python -W ignore -m harness.translate")
+    sh(f"cd {V} && PYTHONPATH={V}:/repo /venv/bin/python -W ignore -m harness.translate")
 
 if res.get("confirmed"):
     dst = f"/verif/seeded/{name}"
